@@ -1229,9 +1229,15 @@ func ruleR10ab(c *Ctx) {
 	kF := name + ":script-is-reverse-of-the-read-transaction"
 	oblF.expect(kF, fn.Pos(), "the postings given to TxToScriptData are Transaction.Reverse() of the transaction read for the id")
 	found := false
-	allCalls(fn, func(ci ssa.CallInstruction) {
+	// in the method or in an execution literal nested in it (`runAndNotify(…, func() { return commander.exec(…) }, …)`)
+	var sitesF []ssa.CallInstruction
+	for _, lf := range withLiterals(fn) {
+		allCalls(lf, func(ci ssa.CallInstruction) { sitesF = append(sitesF, ci) })
+	}
+	for _, ci := range sitesF {
+		ci := ci
 		if !callsFn(ci, txToScript) {
-			return
+			continue
 		}
 		found = true
 		// arg0: TransactionData literal (load of local); its Postings field store
@@ -1253,9 +1259,22 @@ func ruleR10ab(c *Ctx) {
 						continue
 					}
 					// st.Val = load of field Postings of X, X = result of Reverse(read tx)
-					for _, root := range roots(rootBaseThroughCalls(st.Val), nil) {
+					// (a variable captured by the execution literal is the value the method stored into it)
+					src := rootBaseThroughCalls(st.Val)
+					if fv, isFV := src.(*ssa.FreeVar); isFV {
+						if b := freeVarBinding(fv); b != nil {
+							src = rootBaseThroughCalls(b)
+						}
+					}
+					for _, root := range roots(src, nil) {
 						if call, ok := root.(*ssa.Call); ok && isCallTo(call, reverse) {
-							for _, r2 := range roots(rootBase(call.Call.Args[0]), nil) {
+							recv := rootBase(call.Call.Args[0])
+							if fv, isFV := recv.(*ssa.FreeVar); isFV {
+								if b := freeVarBinding(fv); b != nil {
+									recv = rootBase(b)
+								}
+							}
+							for _, r2 := range roots(recv, nil) {
 								if c2, idx := resultOf(r2); c2 != nil && c2 == getTxCall && idx == 0 {
 									okRev = true
 								}
@@ -1268,7 +1287,7 @@ func ruleR10ab(c *Ctx) {
 		if !okRev {
 			oblF.violate(kF, ci.Pos(), "the postings of the revert script are not Reverse() of the transaction that was read from the store for this id", nil)
 		}
-	})
+	}
 	if !found {
 		oblF.undecided(kF, fn.Pos(), "RevertTransaction does not call TxToScriptData")
 	}
@@ -1298,8 +1317,13 @@ func ruleR10c(c *Ctx) {
 		caller := ci.Parent()
 		arg := ci.Common().Args[1]
 		key := "overdraft-flag:" + fnName(caller)
-		if caller == revert {
-			// must be the parameter named force
+		inRevert := caller == revert
+		for up := caller; up != nil && !inRevert; up = up.Parent() {
+			inRevert = up == revert
+		}
+		if inRevert {
+			// must be the parameter named force (seen from an execution literal: the captured parameter)
+			arg = normCaptured(strip(arg))
 			p, ok := arg.(*ssa.Parameter)
 			c.check(ok && p.Name() == "force", rule, key, ci.Pos(), "the revert passes its `force` parameter", "the revert does not pass its `force` parameter as the unbounded-overdraft flag: an unforced revert can overdraw, or a forced one cannot")
 		} else {
